@@ -11,6 +11,8 @@ def streams(ck):
         out[s] = t3.run_corpus(ck, s, n, per_bin=20)
     # the calling crate's edition is part of "every program": one stream compiled as an edition-2018 crate
     out["mixed-edition-2018"] = t3.run_corpus(ck, "mixed-edition-2018", 80 if ck.tier == "quick" else 600, per_bin=20, edition="2018", gen_stream="mixed", seed_salt=7)
+    # ... and one as an optimised build without debug assertions / overflow checks
+    out["mixed-release-profile"] = t3.run_corpus(ck, "mixed-release-profile", 60 if ck.tier == "quick" else 600, per_bin=20, release=True, gen_stream="mixed", seed_salt=11)
     return out
 
 
@@ -285,7 +287,7 @@ def check(ck, aspect, theorems, t2_parts=("body", "status", "validity")):
                        len(cases), nontriv, len(mism), dict(stats),
                        samples=[dict(invocation="assert_struct!(%s)" % c.text[:160], value=c.value_text[:120], spec=str(c.expect)[:160], impl=c.got[0]) for c in cases[:2]],
                        rule="type-directed seeded generation: random type (depth<=3) -> value -> pattern derived from the value with a random form per node; %s; distinct = distinct (invocation, value); non-trivial = at least two forms in the pattern or a perturbed value" % (
-                           {"matching": "value unperturbed (must pass)", "nearmiss": "1..n atoms / variants / lengths of the value perturbed", "mixed": "40% unperturbed", "mixed-edition-2018": "40% unperturbed; the program is an edition-2018 crate"}[stream]))
+                           {"matching": "value unperturbed (must pass)", "nearmiss": "1..n atoms / variants / lengths of the value perturbed", "mixed": "40% unperturbed", "mixed-edition-2018": "40% unperturbed; the program is an edition-2018 crate", "mixed-release-profile": "40% unperturbed; release profile without debug assertions and overflow checks"}[stream]))
     if aspect in ("C01", "C03"):
         bp = t3.run_corpus(ck, "binding-path", 0, per_bin=4, positions=binding_path_cases)
         stats, mism = t3.compare(ck, bp, "binding-path")
